@@ -11,7 +11,8 @@ RULE = ("projects with nested subkeys / namespaces whose non-default locales hav
 def expected_warnings(p, cfg, oracle_cats, suppress):
     """(missing, surplus) sets of (locale, ns, path) per the property text"""
     default = cfg["default"]
-    inherits = dict(cfg["inherits"])
+    # (the `inherits` table as written in the manifest, not as the implementation decoded it)
+    inherits = dict(p["inherits"]) if isinstance(p.get("inherits"), dict) else dict(cfg["inherits"])
     miss, surp = set(), set()
     for (ns, l), tree in p["files"].items():
         if l == default or l not in cfg["locales"]:
@@ -152,6 +153,11 @@ def run(ctx):
     opts = {"fk": False}
     projects = [proj.gen_project(rng, opts) for _ in range(n)]
     generic_pipeline_check(ctx, [("I18nVerif.Theorems.C07", "C07_"), ("I18nVerif.Theorems.C07Pipeline", "C07_")], projects, make_oracle(False), "C07")
+    # every shape of `inherits` on 4 locales (chains, forks, cycles, a locale inheriting from itself) x presence patterns of a key and a group leaf:
+    # an entry in `inherits` silences the missing report, whatever it points at
+    from .c03 import exhaustive_projects
+    corpus = exhaustive_projects()
+    generic_pipeline_check(ctx, [], rng.sample(corpus, min(len(corpus), ctx.budget(300, 6000))), make_oracle(False), "C07-inherits-shapes")
     projects3 = [with_empty_references(rng, proj.gen_project(rng, opts)) for _ in range(n // 4)]
     generic_pipeline_check(ctx, [], projects3, make_oracle(False), "C07-empty-references")
     projects2 = [proj.gen_project(rng, opts) for _ in range(n // 2)]
